@@ -96,6 +96,9 @@ pub struct ExecConfig {
     /// The plan: one entry per target in plan order; `false` = the target hands out no
     /// connection (`ConnectionPoolError::Initializing`).
     pub targets: Vec<bool>,
+    /// The pool error of a connection-less target `t` is `pool_errors[t % len]`
+    /// (`ConnectionPoolError::Initializing` when empty).
+    pub pool_errors: Vec<ConnectionPoolError>,
 }
 
 #[derive(Debug)]
@@ -108,6 +111,7 @@ pub enum ExecResult {
 
 struct VerifTarget {
     idx: usize,
+    pool_error: ConnectionPoolError,
     connection: Option<Arc<Connection>>,
     log: ExecLog,
 }
@@ -122,7 +126,7 @@ impl AttemptTarget for VerifTarget {
         });
         match &self.connection {
             Some(c) => Ok(Arc::clone(c)),
-            None => Err(ConnectionPoolError::Initializing),
+            None => Err(self.pool_error.clone()),
         }
     }
 
@@ -205,6 +209,11 @@ where
         .enumerate()
         .map(|(idx, has_conn)| VerifTarget {
             idx,
+            pool_error: if cfg.pool_errors.is_empty() {
+                ConnectionPoolError::Initializing
+            } else {
+                cfg.pool_errors[idx % cfg.pool_errors.len()].clone()
+            },
             connection: has_conn
                 .then(|| Arc::new(Connection::verif_exec_placeholder(target_addr(idx)))),
             log: Arc::clone(&log),
